@@ -84,7 +84,7 @@ def _first_per_finding(known):
 
 
 CH_LINE = re.compile(r'^(?P<file>[^:]+):(?P<line>\d+): (?P<kind>error|info|warning): (?P<msg>.*)$')
-CH_CALL = re.compile(r'when calling (?P<call>\w+\(.*\))(?: \(which (?:returns|raises) .*\))?\s*$')
+CH_CALL = re.compile(r'when calling (?P<call>\w+\(.*?\))(?: \(which (?:returns|raises) .*\))?\s*$')
 
 
 def run_ch(job, res):
